@@ -264,9 +264,13 @@ def h_mdmf_testv(mode: int, seq_old: int, seq_new: int, r_old: int, r_new: int, 
         return "get_checkstring is not what was written"
     if list(readv) != [(0, cslen)]:
         return "read vector is not the checkstring range"
+    if not isinstance(res, tuple) or res[0] != wrote or res[1] != {}:
+        return "the server's answer (wrote, read data) is not passed through to the publisher"
     # a second write by the same writer: after a successful first write it must test for OUR new checkstring,
     # after a refused one the old expectation must stand
-    _fire(w._write([(200, b"more")]))
+    res2 = _fire(w._write([(200, b"more")]))
+    if not isinstance(res2, tuple) or res2[0] != wrote:
+        return "the server's answer is not passed through on a later write"
     (testv2, datav2, nl2) = srv.calls[1][2][shnum]
     if wrote:
         if len(testv2) != 1 or testv2[0][:3] != (0, cslen, b"eq") or tuple(testv2[0][3].values) != (1, seq_new, ROOTS[r_new]):
@@ -342,6 +346,10 @@ def h_surprise(my_seq: int, their_seq: int, their_root: int, their_salt: int, wr
     pub.num_outstanding = 0
     pub.versioninfo = mm.verinfo(3, 0, 1)
     pub._checkstring = mine
+    pub._version = lay.MDMF_VERSION if mdmf else lay.SDMF_VERSION
+    # the sequence number this publish is writing: a competing share may carry exactly this number with another root hash
+    # (SDMF writers report the checkstring they replace, so _checkstring carries the old seqnum; MDMF writers the new one)
+    pub._new_seqnum = my_seq if mdmf else my_seq + 1
     pub._state = pub_mod.DONE_STATE
     pub.done_deferred = defer.Deferred()
     w0 = NS(shnum=0, server=srv)
